@@ -27,8 +27,9 @@ read off it by the reader's own `position()` (`SlicePos.position` / `IoPos.posit
 
 **Loops.** `parse_unicode_escape` has a `loop` (it iterates only with `validate = false`: a lone leading
 surrogate followed by another leading surrogate) and calls `parse_escape`, which calls it back; both are
-bounded by a fuel argument (each round consumes at least six bytes; `Res.fuel` is proved unreachable with the
-fuel the readers pass: `Proofs/ReadFuel`-style lemmas in `Proofs/ReadEscape.lean`).
+bounded by a fuel argument (each round consumes at least six bytes; `Res.fuel` is unreachable with the fuel the
+readers pass: the refinement theorems of `Props/C09Readers.lean` / `Props/C09ReadersRaw.lean` equate every outcome
+with one of the machine's, none of which is `fuel`).
 
 Data (escape letters, surrogate bounds, pair-combining constants) come from `SJ.Gen.ReadEsc`, regenerated
 from the source on every run.
